@@ -949,14 +949,15 @@ def readPtrs (d : Dpb) (r : Raw) : List Nat → Nat → List (Nat × Bytes) → 
     else readPtrs d r ps (bc + 1) cs
 
 /-- the loop of `read_file` over the entries of the file in data pointer order; state: block count, previous
-logical extent count, result so far -/
-def readLoop (d : Dpb) (r : Raw) (dir : Dir) (finfo : FileInfo) : List (Nat × Nat) → Nat → Nat → Got → R Got
+logical extent count, result so far.  `absIdx`: variant bit — the tree has `proposed_fixes/cpm-get-partial-extent.diff` applied
+(the block count restarts at every physical extent instead of adding the logical extents skipped since the previous entry) -/
+def readLoop (absIdx : Bool) (d : Dpb) (r : Raw) (dir : Dir) (finfo : FileInfo) : List (Nat × Nat) → Nat → Nat → Got → R Got
   | [], _, _, g => .ok g
   | (_, i) :: rest, bc, prev, g =>
     match dir[i]? with
     | none => .error .panic
     | some fx =>
-      if !isExtent fx then readLoop d r dir finfo rest bc prev g else
+      if !isExtent fx then readLoop absIdx d r dir finfo rest bc prev g else
       let created := match finfo.createTime with
         | some t => t
         | none => match finfo.accessTime with
@@ -973,10 +974,10 @@ def readLoop (d : Dpb) (r : Raw) (dir : Dir) (finfo : FileInfo) : List (Nat × N
       let lower := (curr - 1) / (d.exm + 1) * (d.exm + 1)
       if lower < prev then .error .panic else
       -- `… / block_size`: division by zero cannot occur (block size ≥ 128)
-      let bc1 := bc + (lower - prev) * logicalExtentSize / blockSize d
+      let bc1 := if absIdx then lower * logicalExtentSize / blockSize d else bc + (lower - prev) * logicalExtentSize / blockSize d
       match readPtrs d r (Ext.blockList d fx) bc1 g1.chunks with
       | .error e => .error e
-      | .ok (bc2, cs) => readLoop d r dir finfo rest bc2 curr { g1 with chunks := cs }
+      | .ok (bc2, cs) => readLoop absIdx d r dir finfo rest bc2 curr { g1 with chunks := cs }
 
 /-- `std_access_and_typ(xname)` -/
 def stdAccessAndTyp (xname : Bytes) : R (Bytes × Bytes) :=
@@ -986,7 +987,7 @@ def stdAccessAndTyp (xname : Bytes) : R (Bytes × Bytes) :=
     let (base, ext) := stringToFileName name
     .ok (base ++ ext, ext)
 
-def get (d : Dpb) (r : Raw) (xname : Bytes) : R Got :=
+def get (d : Dpb) (r : Raw) (xname : Bytes) (absIdx : Bool := false) : R Got :=
   match getDirectory d r with
   | .error e => .error e
   | .ok dir =>
@@ -1001,7 +1002,7 @@ def get (d : Dpb) (r : Raw) (xname : Bytes) : R Got :=
         match stdAccessAndTyp xname with
         | .error e => .error e
         | .ok (access, fsType) =>
-          readLoop d r dir finfo finfo.entries 0 0
+          readLoop absIdx d r dir finfo finfo.entries 0 0
             { access := access, fsType := fsType, eof := 0, created := [], modified := [], chunks := [] }
 
 /-- `stat().free_blocks` -/
